@@ -184,6 +184,11 @@ fn closes_alias_cycle(registry: &Registry, name: &str, expr: &Expr) -> bool {
                 .find(|rest| *rest == name || registry.definitions.contains_key(*rest))
                 .map(|rest| rest.to_owned())
         };
+        // A base unit is read as itself before any prefix is tried: `cd`
+        // is the candela, not a hundredth of a `d`.
+        if registry.base_units.contains(alias) {
+            return None;
+        }
         with_prefix(alias).or_else(|| alias.strip_suffix('s').and_then(with_prefix))
     };
     let mut current = match expr {
